@@ -15,10 +15,10 @@ from checks import hashcommon as hc
 gen = hc.gen
 DRIVERS = hc.DRIVERS
 PID = "C01"
-PROFILE = {"mix": 6, "occ": 3, "reject": 1}
+PROFILE = {"mix": 6, "occ": 3, "reject": 1, "inflight": 1}
 
 
-def run(tier, replay=None, pid=PID, profile=PROFILE, k=101, nq=16, nt=700):
+def run(tier, replay=None, pid=PID, profile=PROFILE, k=101, nq=16, nt=400):
     rep = vlib.Report(pid, "proof", tier, "cd coq && make Properties/%s.vo Gen/HashCfgGen.vo  (coqc 8.16.1, full .vo build)" % pid)
     rng = vlib.SplitMix64(vlib.seed() * 1000003 + k)
     ok, broken = hc.coq_step(rep, pid)
@@ -33,10 +33,17 @@ def run(tier, replay=None, pid=PID, profile=PROFILE, k=101, nq=16, nt=700):
         f0, w0 = hc.run_engine(rep, pid, hc.corpus_cases(), "01", None, "corpus")
         n = {"quick": nq, "thorough": nt}[tier]
         cases = hc.gen_cases(rng, n, profile)
+        if pid == "C01":
+            # a share of histories that continue from a mid-stream state just below 2^29 / 2^32 /
+            # 2^32+2^29 (the digest of a long stream is C01's as much as C15's; see checks/c15.py)
+            for algo, family in hc.pairs():
+                for T in hc.THRESHOLDS.values():
+                    for _ in range(max(1, n // 16)):
+                        cases.append(hc.gen_inject(rng, algo, family, "D", T))
         f1, w1 = hc.run_engine(rep, pid, cases, "01", dist)
         failures = f0 + f1
         wb = w0 or w1
-        mine = [x for x in failures if x[1]["prop"] in (pid, "ALL")]
+        mine = [x for x in failures if pid in x[1]["prop"] or x[1]["prop"] == "ALL"]
         if (not ok or wb) and not mine:
             # an obligation or the white-box correspondence broke: search harder with the
             # direct oracle only (no L1 run), 5x (quick) the cases, all families
@@ -57,6 +64,8 @@ def run(tier, replay=None, pid=PID, profile=PROFILE, k=101, nq=16, nt=700):
                        "distinct = distinct (pair, mode, history); non-trivial = some context handed back complete after a non-empty segment"
                        % len(hc.pairs()))
     rep.notes["input_distribution"] = {k2: dict(sorted(v.items(), key=lambda kv: str(kv[0]))) for k2, v in dist.items()}
+    wok = hc.wrapper_pairs()
+    rep.notes["dispatcher_binding_under_family_preset"] = {"%s/%s" % k2: v for k2, v in wok.items() if v != "ok"} or "every family is bound under its preset"
     rep.notes["pairs"] = ["%s/%s lanes=%d" % (f["algo"], f["fam"], f["lanes"]) for f in hc.cfg()["fams"]]
     mine = [v for v in rep.violations]
     if not ok and not mine:
